@@ -2,6 +2,8 @@
 from .. import runner
 from ..monitors import mon_unchanged_on_raise
 from .common import story_item_parts, ALPHABET
+from . import c09
+from .. import coll
 
 RULE = (ALPHABET + 'Monitor: for every transition whose `+` raises anything, str(ro) after the exception must equal '
         'str(ro) before (literal string comparison; the live object that raised is serialised). Covers each position '
@@ -20,7 +22,15 @@ def vacuity(by_kind, by_outcome, extra, by_class):
 
 def run(tier):
     parts = story_item_parts(tier, [mon_unchanged_on_raise])
+    names = list(coll.pool_messages())
+    L = 3 if tier == 'quick' else 4
+    seqs = list(c09.sequences(names[:9] if tier == 'quick' else names, L))
+    nasty = list(c09.sequences(list(coll.pool_nasty()), 2 if tier == 'quick' else 3))
+    enum_parts = [{'label': 'collection-sequences', 'worker': c09.worker, 'items': seqs, 'opts': {'c05': True}, 'chunk': 40},
+                  {'label': 'collection-sequences-self-referential', 'worker': c09.worker, 'items': nasty, 'opts': {'c05': True, 'nasty': True}, 'chunk': 40}]
     return runner.graph_check(
-        'C05', tier, parts, rule=RULE, vacuity=vacuity,
+        'C05', tier, parts, rule=RULE + ' Plus: every message sequence of H-COLL (every subset and placement of failing '
+        'messages, self-referential/blank/repeated-ID messages) folded with `+`: after each failing step the running order '
+        'equals the one before it.', vacuity=vacuity, enum_parts=enum_parts,
         assumptions=['the failing `+` is observed on freshly parsed objects; str() of the same live object is compared',
                      'bounds as listed per part'])
